@@ -876,7 +876,7 @@ def stream_writers(ctx, res):
     rng = ctx.rng
     printed = Printed()
     outcomes = {}
-    n = ctx.n(700, 20000)
+    n = ctx.n(640, 20000)
     for i in range(n):
         fmt = ["dfxp", "sami", "vtt"][i % 3]
         rel = rng.random() < 0.75
